@@ -182,7 +182,7 @@ impl<const LIMBS: usize> zeroize::Zeroize for MontyParams<LIMBS> {
 
 /// An integer in Montgomery form represented using `LIMBS` limbs.
 /// The odd modulus is set at runtime.
-#[derive(Debug, Clone, Copy, PartialEq, Eq)]
+#[derive(Debug, Clone, Copy)]
 pub struct MontyForm<const LIMBS: usize> {
     montgomery_form: Uint<LIMBS>,
     params: MontyParams<LIMBS>,
@@ -339,6 +339,18 @@ impl<const LIMBS: usize> ConditionallySelectable for MontyForm<LIMBS> {
         }
     }
 }
+
+impl<const LIMBS: usize> PartialEq for MontyForm<LIMBS> {
+    fn eq(&self, other: &Self) -> bool {
+        // Both comparisons are always evaluated (no `&&`): whether the (secret) values are equal
+        // must not decide whether the parameters get compared.
+        let values: bool = self.montgomery_form.ct_eq(&other.montgomery_form).into();
+        let params = self.params == other.params;
+        values & params
+    }
+}
+
+impl<const LIMBS: usize> Eq for MontyForm<LIMBS> {}
 
 impl<const LIMBS: usize> ConstantTimeEq for MontyForm<LIMBS> {
     fn ct_eq(&self, other: &Self) -> Choice {
